@@ -308,6 +308,7 @@ func (t *table) startWALProcessing(walOffset wal.Offset) error {
 	if walErr != nil {
 		return fmt.Errorf("Unable to obtain WAL reader: %v", walErr)
 	}
+	verifReadInit(t, walOffset)
 
 	go t.processWALInserts()
 	return nil
